@@ -56,7 +56,12 @@ var Props = map[string]PropRunner{
 		p.Weights[opClockJump] = 4
 		RunE0(r, p)
 	},
-	"C05": func(r *Run) { RunE0(r, e0Profile("C05", "C05")) },
+	"C05": func(r *Run) {
+		p := e0Profile("C05", "C05")
+		p.CodecSwarm = true // immutability is claimed for entries of every codec configuration
+		p.Weights[opRefused] = 6
+		RunE0(r, p)
+	},
 	"C06": func(r *Run) {
 		p := e0Profile("C06", "C06")
 		p.CodecSwarm = true
